@@ -248,6 +248,7 @@ unsafe fn stub_subtask_drop(handle: u32) {
     );
     assert!(H.drop_calls == 0, "subtask.drop twice");
     H.drop_calls += 1;
+    mt::G.handle_closed = true;
 }
 
 /// The host reports progress for the registered subtask.
